@@ -1277,6 +1277,12 @@ func hostC10(o *out, replay string) {
 		impl, pred := runLastWords(launch, 1500)
 		o.emit("!C10.lastwords lines=1500 launch="+launch, impl, pred)
 	}
+	// a first stdout line that is rejected, FOLLOWED by more stdout lines (a usage message): the rest is still consumed — the
+	// plugin is ended and Kill returns
+	for _, proto := range []string{"netrpc", "grpc"} {
+		impl, pred := runKillCase(&killCase{proto, "neverstarted2", "cmd", "single"})
+		o.emit("!C10.rejected-line-then-more proto="+proto, impl, pred)
+	}
 	o.note("C10 input classes: %s", fmtCounts(cls))
 	o.note("C10 outcomes: %s", fmtCounts(outc))
 	o.note("C10 buffer sizes: PluginLogBufferSize in {1,15,16,17,33,64,200,4096,0(default 65536)}; stdout lines around 4096/65535/65536/65537, 3-4 MiB volume")
